@@ -29,7 +29,10 @@ pgcontrols = { path = "%s" }
         shutil.copyfile(os.path.join(repo, "Cargo.lock"), os.path.join(d, "Cargo.lock"))
     except OSError:
         pass
-    src = "#![allow(dead_code, unused, unreachable_code)]\nfn ss<T: Send + Sync + ?Sized>() {}\nfn ssv<T: Send + Sync>(_: &T) {}\n"
+    src = "#![allow(dead_code, unused, unreachable_code)]\nfn ss<T: Send + Sync + ?Sized>() {}\nfn ssv<T: Send + Sync>(_: &T) {}\n" \
+          "fn a0<R: Send + Sync>(_: impl Fn() -> R) {}\nfn a1<A, R: Send + Sync>(_: impl Fn(A) -> R) {}\n" \
+          "fn a2<A, B, R: Send + Sync>(_: impl Fn(A, B) -> R) {}\nfn a3<A, B, C, R: Send + Sync>(_: impl Fn(A, B, C) -> R) {}\n" \
+          "fn a4<A, B, C, D, R: Send + Sync>(_: impl Fn(A, B, C, D) -> R) {}\n"
     line_map = {}
     n = src.count("\n")
     for label, code in lines:
